@@ -60,6 +60,9 @@ pub struct Finding {
     /// optional: observed must contain this substring
     pub observed_contains: Option<String>,
     pub status: String, // "open" | "fixed"
+    /// concrete cases with the wrong observation recorded when the finding was filed: a witness that
+    /// now fails *differently* is a new violation, not this finding
+    pub witnesses: Vec<(String, String)>,
 }
 
 pub fn load_findings(property: &str) -> Vec<Finding> {
@@ -94,6 +97,10 @@ pub fn load_findings(property: &str) -> Vec<Finding> {
             oracle: f["rule"]["oracle"].as_str().map(String::from),
             observed_contains: f["rule"]["observed_contains"].as_str().map(String::from),
             status: f["status"].as_str().unwrap_or("open").to_string(),
+            witnesses: f["witnesses"]
+                .as_array()
+                .map(|a| a.iter().map(|w| (w["case"].as_str().unwrap_or("").to_string(), w["observed"].as_str().unwrap_or("").to_string())).collect())
+                .unwrap_or_default(),
         });
     }
     out
@@ -117,6 +124,12 @@ impl Finding {
         }
         if let Some(s) = &self.observed_contains {
             if !f.observed.contains(s.as_str()) {
+                return false;
+            }
+        }
+        // the same input failing in a different way than recorded is not this finding
+        if let Some((_, obs)) = self.witnesses.iter().find(|(c, _)| *c == f.case) {
+            if !obs.is_empty() && *obs != f.observed {
                 return false;
             }
         }
